@@ -15,7 +15,7 @@ pub fn arg_val(args: &[String], name: &str) -> Option<String> {
 }
 
 fn main() {
-    std::panic::set_hook(Box::new(|_| {}));
+    util::install_panic_hook();
     let args: Vec<String> = std::env::args().collect();
     let cmd = args.get(1).map(|s| s.as_str()).unwrap_or("");
     let seed: u64 = arg_val(&args, "--seed").and_then(|s| s.parse().ok()).unwrap_or(1);
@@ -79,6 +79,13 @@ fn main() {
             let mut p = util::Prng::new(seed);
             for c in fw::parse_cases(&text) {
                 emit_fw(&mut w, &c, &mut p);
+            }
+        }
+        "fw-dump" => {
+            let mut text = String::new();
+            let _ = std::io::Read::read_to_string(&mut std::io::stdin(), &mut text);
+            for c in fw::parse_cases(&text) {
+                let _ = writeln!(w, "{:#?}", c.machines);
             }
         }
         other => {
